@@ -41,3 +41,12 @@ Example C10_nonvacuous :
   map ao_out (alloc_model (2, [OOpen; OOpen; OOpen; OAppClose 1; OOpen; OBrokerClose 2; OOpen; OOpen]))
   = [RId 1; RId 2; RErr; RNone; RId 1; RNone; RId 2; RErr].
 Proof. exact alloc_nonvacuous. Qed.
+
+(* ---------- concurrent channel() ---------- *)
+From AV Require Import Model.Src Gen.GenSrc Model.SrcShape.
+(* read off the source on every run: the number is chosen, the channel registered
+   and opened inside Connection.lock - so concurrent calls are a sequence of the
+   atomic steps the theorems above quantify over *)
+Theorem C10_source_alloc_atomic : alloc_shape_ok = true.
+Proof. vm_compute. reflexivity. Qed.
+Print Assumptions C10_source_alloc_atomic.
